@@ -152,7 +152,13 @@ def encode_contrasts(  # pylint: disable=dangerous-default-value  # always repla
         )
 
     if levels is not None:
-        extra_categories = set(pandas.unique(data)).difference(levels)
+        # Values that are not recoded into one of the nominated levels (this
+        # uses pandas' own matching, so that e.g. a boolean `True` is reported
+        # when it is not matched to an integer level `1`).
+        recoded = pandas.Categorical(data, categories=levels)
+        extra_categories = set(
+            pandas.unique(pandas.Series(data).array[recoded.codes == -1])
+        )
         if extra_categories:
             warnings.warn(
                 "Data has categories outside of the nominated levels (or that were "
@@ -160,7 +166,7 @@ def encode_contrasts(  # pylint: disable=dangerous-default-value  # always repla
                 " cast to nan, which will likely skew the results of your analyses.",
                 DataMismatchWarning,
             )
-        data = pandas.Series(pandas.Categorical(data, categories=levels))
+        data = pandas.Series(recoded)
     else:
         data = pandas.Series(data).astype("category")
 
